@@ -1,3 +1,5 @@
+//go:build verif_all || verif_c08 || verif_c10 || verif_c16 || verif_c19 || verif_c20
+
 package graph
 
 // Injected by the /verif overlay (never committed to the repository).
@@ -46,24 +48,4 @@ func init() {
 		p := k.(nodePair)
 		return verifNodeKey(p.src) + "|" + verifNodeKey(p.dest)
 	})
-}
-
-// Comparator seams for the C08 law checks.
-
-// VerifEdgeLess is edgeList.Less on a two-element list.
-func VerifEdgeLess(a, b *Edge) bool { return edgeList{a, b}.Less(0, 1) }
-
-// VerifTagLess is tags.Less on a two-element list.
-func VerifTagLess(a, b *Tag, flat bool) bool { return tags{[]*Tag{a, b}, flat}.Less(0, 1) }
-
-// VerifNodeOrders lists the node orders.
-var VerifNodeOrders = []NodeOrder{FlatNameOrder, FlatCumNameOrder, CumNameOrder, NameOrder, FileOrder, AddressOrder, EntropyOrder}
-
-// VerifSortedFirst sorts the two nodes by the given order and reports whether a comes first.
-func VerifSortedFirst(a, b *Node, o NodeOrder) (aFirst bool, err error) {
-	ns := Nodes{a, b}
-	if err := ns.Sort(o); err != nil {
-		return false, err
-	}
-	return ns[0] == a, nil
 }
